@@ -139,6 +139,7 @@ pub fn serve(cases_path: &str, out_path: &str) {
             }
             Some("load") => crate::loadrun::do_load(&unhex(it.next().unwrap_or("-"))),
             Some("bld") => crate::bldrun::do_bld(line.strip_prefix("bld ").unwrap_or("")),
+            Some("lift") => crate::loadrun::do_lift(&unhex(it.next().unwrap_or("-"))),
             Some("libdis") => crate::loadrun::do_libdis(&unhex(it.next().unwrap_or("-"))),
             Some("feed") => {
                 let v: Vec<&str> = it.collect();
